@@ -12,6 +12,11 @@ func (c *ctx) loaderHistory() {
 	if c.r.Loader == nil {
 		return
 	}
+	for _, e := range c.r.Events {
+		if e.Kind == "published-despite-error" {
+			c.vs("C16/failed-load-published", c.p.Scen.Format, "a load that failed (%s) nevertheless published a configuration", e.S)
+		}
+	}
 	for _, s := range c.r.Loader.Steps {
 		if (s.OldErr == "") != (s.FreshErr == "") {
 			c.vs("C16/load-outcome-differs", c.p.Scen.Format, "step %d (%d bytes): long-lived %s loader says %q, a fresh loader says %q", s.Step, s.Bytes, c.p.Scen.Format, s.OldErr, s.FreshErr)
